@@ -11,12 +11,22 @@ every search returns the *position* of the reported match (`Res.pos`, a ghost va
 can only learn it through a `Save` atom).
 
 Checked `u32` arithmetic of the Rust code (`self.range.start + …`, `cursor + jump`, `… - base`) is
-`padd32` / an explicit `panic`; `Lemmas/Scan.lean` proves none is reachable.  `self.hits` is a plain
-counter here: it is incremented once per interpreter call, every call is at a position in
-`[range.start before, range.start after)` of the search that makes it and `range.start` never
-decreases, so over the life of a `Matches` object `hits` is at most the number of `u32` positions
-below `range.end ≤ u32::MAX` and the checked `u32` increment cannot overflow (argued here, not
-proved; the counter is compared with the implementation by the correspondence check).
+`padd32` / an explicit `panic`; `Lemmas/Scan.lean` proves none is reachable.  `self.hits` (a `u32`
+incremented by the checked `self.hits += 1` once per interpreter call) is a plain `Nat` counter here.
+That this loses nothing is PROVED (`Lemmas/Scan.lean`: `strat{0,1,2}Loop_hits`, `nextWith_hits`,
+`Reach_hits`; `Thm/C10Pos.lean`): every returning call of `next` — any interpreter, image, atom list,
+state — raises `hits` by at most the number of positions `range.start` advanced
+(`C10_hits_bounded`), `range.start` never decreases and never passes `max range.start range.end`
+(`C10_next_advance`), so after any sequence of calls on `matches(pat, lo..hi)` with `hi` a `u32`
+`hits ≤ range.start - lo ≤ hi - lo < 2^32` (`C10_hits_no_overflow`, `C10_hits_no_overflow_code`);
+the counter only grows during a search (the loop lemmas hold from every intermediate loop state), so
+no value it takes during a returning call exceeds `u32::MAX` and the checked increment cannot panic.
+The correspondence run does NOT compare the exact values of `hits()` / `range()` (a performance
+counter and the iterator's resume point: the property constrains neither exactly, so
+`vlib/props_scan.py:C10.project` strips them); it checks the implementation's own `range=` / `hits=`
+against what these theorems say of every correct run (`C10.oracle`: `range.end` unchanged,
+`lo ≤ range.start ≤ max lo range.end`, reported positions below `range.start`,
+`number of reported matches ≤ hits ≤ range.start - lo`).
 `slice.len() as u32` is the identity (buffers are below 4 GiB).
 -/
 namespace Pelite.Scan
